@@ -4,6 +4,7 @@ import Model.RowsCrash
 import Model.Dispatch
 import Model.CrashValue
 import Model.PrepLife
+import Model.EventFlow
 import Driver.Util
 namespace Driver.C05
 open Util
@@ -150,7 +151,11 @@ def step (_ : Unit) (ws : List String) : Unit × String :=
                -- seq / seqinv <callers> <steps..>: Model/PrepLife.lean (prepared-statement cache life cycle)
                match PrepLife.answer ws with
                | some a => a
-               | none => "bad-op")
+               | none =>
+                 -- evt / evtinv <cfg> <rounds>: Model/EventFlow.lean (frames on stream -1, every Events configuration)
+                 match EventFlow.answer ws with
+                 | some a => a
+                 | none => "bad-op")
 
 def init : Unit := ()
 end Driver.C05
